@@ -459,8 +459,11 @@ def r3_intervals(ctx):
         ctx.ob("C05.R3", RND, "CobaRandom.randint", r, "randint() in [a,b]", ok, detail=d)
     # --- randints (b is rebound to b+1 first)
     fn = ctx.fn(RND, "CobaRandom.randints")
-    rebind = [s for s in fn.body if isinstance(s, ast.Assign) and unparse(s.targets[0]) == "b"]
-    b1 = sym("b") + 1 if (len(rebind) == 1 and unparse(rebind[0].value) == "b + 1") else sym("b")
+    # `b = b + 1` is folded to `b += 1` at parse time (model._fold_numeric_increments); both spellings are accepted here
+    rebind = [s for s in fn.body if (isinstance(s, ast.Assign) and unparse(s.targets[0]) == "b") or (isinstance(s, ast.AugAssign) and unparse(s.target) == "b")]
+    plus1 = len(rebind) == 1 and ((isinstance(rebind[0], ast.Assign) and unparse(rebind[0].value) in ("b + 1", "1 + b"))
+                                 or (isinstance(rebind[0], ast.AugAssign) and isinstance(rebind[0].op, ast.Add) and unparse(rebind[0].value) == "1"))
+    b1 = sym("b") + 1 if plus1 else sym("b")
     comps = [x for x in walk_shallow(fn) if isinstance(x, ast.ListComp)]
     ctx.floor("C05.R3", "randints comprehensions", len(comps), 1)
     for comp in comps:
